@@ -21,9 +21,10 @@ def run(ctx):
         B = jobtask.Bodies(ctx, "R09.1")
         jobrules.effect_table(ctx, B)
         jobrules.hook_discipline(ctx, B)
+        jobrules.callbox_table(ctx, "R09.2")
     except Skip:
         pass
-    for fn, rule in ((jobrules.reset_summary, "R09.3"), (jobrules.signal_child_rule, "R09.6"), (jobrules.timer_summaries, "R09.6")):
+    for fn, rule in ((jobrules.reset_summary, "R09.3"), (jobrules.signal_child_rule, "R09.6"), (jobrules.timer_summaries, "R09.6"), (jobrules.ticket_shape, "R09.6")):
         try:
             fn(ctx, rule)
         except Skip:
